@@ -253,6 +253,11 @@ func (runInfo *runInfoStruct) invokeMultiplyOperator(operator *ast.MultiplyOpera
 				runInfo.rv = nilValue
 				return
 			}
+			runInfo.rv = nilValue
+			if !runInfo.options.Debug {
+				// captures panic
+				defer recoverFunc(runInfo)
+			}
 			runInfo.rv = reflect.ValueOf(strings.Repeat(toString(lhsV), int(count)))
 			return
 		}
